@@ -144,8 +144,8 @@ def run(ctx, chk):
                         "register values are arbitrary 16-bit words; stdin content is arbitrary"]
     binm = ctx.facts.mir("bin")
     sigs = {s["name"]: s for s in binm["sigs"]}
-    fns = {n: P.by_name.get(("bin", "driver::interrupts::" + n)) for n in ("int_13", "int_21")}
-    drv = P.by_name.get(("bin", "driver::driver::CMDDriver::run"))
+    fns = {n: P.find("bin", "driver::interrupts::" + n) for n in ("int_13", "int_21")}
+    drv = P.find("bin", "driver::driver::CMDDriver::run")
     for n, f in fns.items():
         if f is None:
             chk.undecided_("C18.R3", n, "service function not found")
